@@ -59,6 +59,12 @@ FILES = {
     # sibling packages whose names are in a string-prefix relation
     'p:5': ['pkg/__init__.py', 'pkg/core/__init__.py', 'pkg/core/tests.py', 'pkg/core_ext/__init__.py', 'pkg/core_ext/tests.py',
             'pkg/corex/__init__.py', 'pkg/corex/tests.py'],
+    # sibling directories whose names differ in case / start with an
+    # underscore (code-point order: upper case < '_' < lower case), and names
+    # that differ in case only
+    'c:mixed': ['Zeta/__init__.py', 'Zeta/tests.py', 'alpha/__init__.py', 'alpha/tests.py',
+                '_under/__init__.py', '_under/tests.py', 'Beta/__init__.py', 'Beta/tests.py'],
+    'c:twins': ['PKG/__init__.py', 'PKG/tests.py', 'pkG/__init__.py', 'pkG/tests.py', 'Pkg/__init__.py', 'Pkg/tests.py'],
     'd:foo-bar': ['foo-bar/tests.py'], 'd:.git': ['.git/tests.py'],
     'd:node_modules': ['node_modules/tests.py'], 'd:CVS': ['CVS/tests.py'],
     'd:1abc': ['1abc/tests.py'], 'd:__pycache__': ['__pycache__/tests.py'],
@@ -106,6 +112,12 @@ CONFIGS = {
     'via_link_tp_s': {'via_link': True, 'kind': 'test-path', 's': 'pkg'},
     'via_link_s_inner': {'via_link': True, 'kind': 'test-path', 's': ['pkg.inner']},
     'ignore_pkg': {'ignore_dir': 'pkg'},
+    # a second search path BELOW a directory the walk from the first one skips
+    'nested_cvs': {'paths': ['', 'CVS'], 'needs': 'd:CVS'},
+    'nested_nm': {'paths': ['', 'node_modules'], 'needs': 'd:node_modules'},
+    'nested_nm_rev': {'paths': ['node_modules', ''], 'needs': 'd:node_modules'},
+    'nested_ignored_pkg': {'paths': ['', 'pkg'], 'ignore_dir': 'pkg'},
+    'nested_nonident': {'paths': ['', 'foo-bar'], 'needs': 'd:foo-bar'},
 }
 
 
@@ -127,6 +139,8 @@ def cases(tier, seed):
             for cfg in worlds.rot(list(CONFIGS), seed):
                 if ('pkg' in str(CONFIGS[cfg].get('paths', '')) or 's' in CONFIGS[cfg]
                         or 'package_path' in CONFIGS[cfg]) and 'p' not in kinds:
+                    continue
+                if CONFIGS[cfg].get('needs') and CONFIGS[cfg]['needs'] not in names:
                     continue
                 if 'inner' in str(CONFIGS[cfg].get('s', '')) and 'p:4' not in names:
                     continue          # only p:4 has the package pkg.inner
